@@ -19,7 +19,13 @@ import (
 )
 
 func c06Engine() *route.Engine {
-	return route.NewEngine(config.NewOptions([]config.Option{{F: func(o *config.Options) { o.DisablePrintRoute = true }}}))
+	e := route.NewEngine(config.NewOptions([]config.Option{{F: func(o *config.Options) { o.DisablePrintRoute = true }}}))
+	// three pass-through middlewares added one at a time: the engine's handler slice then has spare
+	// capacity (len 3, cap 4), the situation in which route chains could share a backing array
+	for i := 0; i < 3; i++ {
+		e.Use(func(c context.Context, ctx *app.RequestContext) { ctx.Next(c) })
+	}
+	return e
 }
 
 func c06PanicClass(r interface{}) string {
